@@ -81,6 +81,7 @@ func eventFromRecord(de *DagEvent) *hg.Event {
 
 // insert feeds one event with a full consensus pass (per-event batching).
 func (in *instance) insert(de *DagEvent) {
+	progress.Add(1)
 	if in.err != nil {
 		return
 	}
